@@ -14,8 +14,27 @@ STORE_OPS = ("set", "add", "replace", "append", "prepend")
 NOREPLY_DEFAULT_FALSE = ("cas", "incr", "decr")
 
 
+def _keys_as(keys, how):
+    """the key collection in the shape the caller chose: any iterable is documented to do, one-shot ones included"""
+    if how in (None, "list"):
+        return keys
+    if how == "tuple":
+        return tuple(keys)
+    if how == "iter":
+        return iter(list(keys))
+    if how == "generator":
+        return (k for k in list(keys))
+    if how == "map":
+        return map(lambda k: k, list(keys))
+    if how == "dictview":
+        return {k: None for k in keys}.keys()
+    raise ValueError(how)
+
+
 def invoke(c, r):
     op = r["op"]
+    if "keys_as" in r and "keys" in r:
+        r = dict(r, keys=_keys_as(r["keys"], r["keys_as"]))
     kw = {}
     for name in ("expire", "noreply", "flags", "default", "cas_default"):
         if name in r:
@@ -50,6 +69,8 @@ def invoke(c, r):
         return c.version()
     if op == "stats":
         return c.stats(*r.get("args", ()))
+    if op == "raw_command":
+        return c.raw_command(r["command"], *([r["end"]] if "end" in r else []))
     if op == "quit":
         return c.quit()
     if op == "shutdown":
